@@ -147,7 +147,7 @@ func runRepl(w *replWorkload, cut1, cut2 int) replOutcome { return runReplEx(w, 
 // its own synchronisation produced.
 func runReplEx(w *replWorkload, cut1, cut2 int, restartFollower bool) replOutcome {
 	var out replOutcome
-	rt := vrt.Run(vrt.Options{MaxPoints: 600_000_000}, func() {
+	rt := vrt.Run(vrt.Options{MaxPoints: 600_000_000, HB: true}, func() {
 		lc := hapi.Config{Name: "n0", Port: 5658, FastKeys: 4, Concurrent: 1}
 		if w.LeaderMod != nil {
 			w.LeaderMod(&lc)
@@ -295,6 +295,9 @@ func runReplEx(w *replWorkload, cut1, cut2 int, restartFollower bool) replOutcom
 	})
 	if rt.Crash != nil {
 		out.Err = "crash: " + rt.Crash.Value + "\n" + firstLines(rt.Crash.Stack, 14)
+	}
+	if mr := rt.MapRaceReport(); mr != "" && out.Err == "" {
+		out.Err = "crash: two threads access a map without an ordering between them (the Go runtime kills the process when they meet): " + mr
 	}
 	if rt.Deadlock != "" {
 		out.Err = "deadlock: " + rt.Deadlock
